@@ -363,6 +363,7 @@ func checkC13(c *Ctx) {
 		}
 	}
 	outcomes := map[string]int{}
+	nSamples := 0
 	var execs, points, maxPoints, spawnedTotal int64
 	boundHit := false
 	for si := range scenarios {
@@ -381,6 +382,13 @@ func checkC13(c *Ctx) {
 			spawnedTotal += int64(spawned)
 			d := c13Judge(bg, sc, x, w, spawned, races)
 			outcomes[fmt.Sprintf("%s|bp%d|can%d|%s", sc.Name, sc.BP, sc.Canceller, w.out.sig())]++
+			if nSamples < 4 && (first || (len(x.Steps) > 8 && x.Steps[3].Chosen+x.Steps[5].Chosen+x.Steps[7].Chosen > 0 && si%7 == 3)) {
+				// actual explored executions, written out
+				nSamples++
+				smp := *sc
+				smp.Sched = x.Choices()
+				c.Sample(map[string]interface{}{"scenario": smp, "outcome": w.out.sig(), "threads": x.NThreads()})
+			}
 			if first || d != nil {
 				// replay determinism: the same schedule must give identical observations
 				first = false
@@ -447,8 +455,6 @@ func checkC13(c *Ctx) {
 	c.Set("threads_spawned_by_run_total", spawnedTotal)
 	c.Rule = fmt.Sprintf("the real Run, rewritten at check time by an AST pass so that its go statement, channel receive, atomic operations, cancel() and captured-variable accesses go through a cooperative scheduler (%d files rewritten, %d go statements, %d receives, %d shared accesses instrumented); %d scenarios = programs {JR -2; LDIR BC=0 loop; IN A,(n) loop; NOP;NOP;HALT; DJNZ loop;HALT; JP (IX) loop; IN A,(C);JP (IX) loop; LD R,A loop} (non-terminating ones also from refresh-register values 00,01,7E,FF) x BreakPoints {nil, non-nil never reached, reached} x canceller {absent, before the call, concurrent} x parent context {std WithCancel -> Canceled, harness context with AfterFunc -> DeadlineExceeded}; threads: caller, the goroutine(s) Run spawns, canceller; scheduling points at every atomic operation, go, receive, cancel() and inside every memory/port callback; ALL schedules with <=%d preemptions (thorough: unbounded for the terminating programs), fair yields at the polling load, horizon 20000 points. Per schedule: error in the allowed set (context error iff cancelled before return and equal to the context's error; nil => HALT executed; ErrBreakPoint => PC in BreakPoints), Run returns whenever cancelled or the program stops, final state = Step-driven twin after a whole number of Steps with the same number of reads, every spawned thread finished (leak), no deadlock, no happens-before race on the captured variables (vector clocks: fork, release/acquire on atomics, cancel->receive). First and every violating schedule are executed twice and must reproduce. Non-trivial: every schedule (counted); distinct outcomes reported.", len(rep.Files), rep.GoStmts, rep.Receives, rep.Wrapped, len(scenarios), bound)
 	c.Bound = fmt.Sprintf("preemption bound %d, horizon 20000", bound)
-	c.Sample(c13Scenario{Prog: 0, Name: progs[0].name, BP: 0, Canceller: 2, Sched: []int{0, 0, 1, 0, 0, 1}})
-	c.Sample(c13Scenario{Prog: 3, Name: progs[3].name, BP: 2, Canceller: 1})
 	c.Assume("sequentially consistent interleavings at the instrumented operations; weak-memory effects are outside the model")
 	c.Assume("'bounded delay' is decided in scheduling points (horizon) under fair scheduling, not in seconds")
 	c.Assume("a deadline is modelled by a harness-owned parent context whose expiry is an event of the canceller thread (no runtime timer)")
